@@ -85,17 +85,17 @@ theorem expand_xmd_block_too_large (H : Bytes → Bytes) (bLen s : Nat) (hs : 25
     | panic => rw [hd] at h; cases h
     | ok d =>
       rw [hd] at h
-      simp only [obind, if_pos hs] at h
+      simp only [obind] at h
       split at h <;> cases h
 
-example : expandXmd toyH 2 64 [81, 85] [97] 5 = .ok [93, 71, 50, 71, 85] := by decide +kernel
-example : Rfc.expandMessageXmd toyH 2 64 [97] [81, 85] 5 = some [93, 71, 50, 71, 85] := by decide +kernel
+example : expandXmd toyH 2 64 [81, 85] [97] 5 = .ok [254, 6, 219, 6, 193] := by decide +kernel
+example : Rfc.expandMessageXmd toyH 2 64 [97] [81, 85] 5 = some [254, 6, 219, 6, 193] := by decide +kernel
 -- ell = 256 > 255: panic / ABORT
 example : expandXmd toyH 2 64 [81] [97] 512 = .panic := by decide +kernel
 example : Rfc.expandMessageXmd toyH 2 64 [97] [81] 512 = none :=
   (expand_xmd_panic_iff toyH 2 64 (by decide) [81] [97] 512).1 (by decide +kernel)
 -- an over-long DST is hashed first (§5.3.3)
-example : (expandXmd toyH 2 7 (List.replicate 300 1) [] 3) = .ok [21, 7, 21] := by decide +kernel
+example : (expandXmd toyH 2 7 (List.replicate 300 1) [] 3) = .ok [51, 6, 69] := by decide +kernel
 
 /-- the two slice operations of `hash_to_field` -/
 theorem sub_slice_extract (b : Array Nat) (off len : Nat) :
@@ -136,7 +136,7 @@ example : hashToField Ark.Sha256.sha256 32 Rfc.blsP (Rfc.ceilLog2 Rfc.blsP) 1 12
     ofOpt (Rfc.hashToField Ark.Sha256.sha256 32 64 Rfc.blsP 1 128 [81] [97] 2) :=
   hash_to_field_eq_rfc_64 _ 32 sha256_output_length (by decide) _ 1 128 2 (by decide +kernel) _ _
 
-example : hashToField toyH 2 127 (Rfc.ceilLog2 127) 1 128 2 [81] [97] = .ok [[17], [24]] := by decide +kernel
+example : hashToField toyH 2 127 (Rfc.ceilLog2 127) 1 128 2 [81] [97] = .ok [[96], [38]] := by decide +kernel
 
 /-! ### 2. parity is sgn0 -/
 
